@@ -94,6 +94,9 @@ def gen_cases(tier, seed, gen, effort):
     rnd = random.Random(seed * 6151 + 11)
     thorough = tier == "thorough"
     cases = [gen_case(rnd) for _ in range((1500 if not thorough else 25000) * effort)]
+    for c in cases:
+        if rnd.random() < 0.3:
+            c["prefix"] = True       # converted through a pipeline that prefixes every field name: each rule's copy of the filter is transformed once
     # D10b sub-stream: rule pattern starting with '_'
     for _ in range(20):
         c = gen_case(rnd)
@@ -111,7 +114,12 @@ def run_impl(case):
         return {"outcome": outcome_of_exception(e), "stage": "load", "msg": str(e)[:200]}
     try:
         conds = {r.title: list(r.detection.condition) for r in coll.rules if hasattr(r, "detection")}
-        b = qsyntax.make_backend(CFG)()
+        if case.get("prefix"):
+            from sigma.processing.pipeline import ProcessingPipeline
+            pl = ProcessingPipeline.from_dict({"name": "p", "priority": 1, "transformations": [{"type": "field_name_prefix", "prefix": "x."}]})
+            b = qsyntax.make_backend(CFG)(pl)
+        else:
+            b = qsyntax.make_backend(CFG)()
         b.convert(coll)
         res = {r.title: [str(q) for q in r.get_conversion_result()] for r in coll.rules}
         return {"outcome": "ok", "results": res, "conds": conds}
@@ -138,7 +146,21 @@ def ls_json(ls):
     return {k: (cps(ls[k]) if ls.get(k) is not None else None) for k in ("category", "product", "service")}
 
 
+def prefixed(d, on):
+    """the documented effect of field_name_prefix 'x.' on a detection definition (all generated items are field: value maps)"""
+    if not on:
+        return d
+    if isinstance(d, dict):
+        return {"x." + k: v for k, v in d.items()}
+    if isinstance(d, list):
+        return [prefixed(x, on) for x in d]
+    return d
+
+
 def make_request(case, impl, gen):
+    case = dict(case, rules=[dict(r, detection={k: (prefixed(v, case.get("prefix")) if k != "condition" else v) for k, v in r["detection"].items()}) if "detection" in r else r
+                             for r in case["rules"]],
+                filters=[dict(f, filter={k: (prefixed(v, case.get("prefix")) if k not in ("condition", "rules") else v) for k, v in f["filter"].items()}) for f in case["filters"]])
     filters = []
     for f in case["filters"]:
         fl = f["filter"]
@@ -175,7 +197,7 @@ def make_request(case, impl, gen):
 
 def judge(case, impl, reply):
     io = impl["outcome"]
-    key = (case["rules"], case["filters"])
+    key = (case["rules"], case["filters"], case.get("prefix"))
     applies_any = any(any(r["applies"]) for r in reply["rules"])
     nt = applies_any
     tags = [f"impl:{io.split(':')[0]}", f"rules:{len(case['rules'])}", f"filters:{len(case['filters'])}", f"applies:{applies_any}"]
